@@ -5,9 +5,12 @@
       RadiusExpand.find_nearest_neighbors(G, center_nodes, n_knn)               called directly: any start list, n_knn <= 0,
                                                                                start atoms that are not atoms of G (networkx raises)
       RadiusExpand.extract_k(its, n_knn) for n_knn < -1                         (range(n_knn) is empty: the induced subgraph on the centre atoms)
+    and the INTERMEDIATE states of synkit/Graph/ITS/its_decompose.py get_rc: the centre under construction after each of
+      _add_changed_bonds, _add_hh_bonds, _add_charge_change_nodes, _reconnect_rc_edges  (called one by one by the harness),
+    truth tables of _should_include_edge and _is_hydrogen.
     Definitions only; proofs in proof/C02_Api.v. *)
 From Coq Require Import List NArith ZArith Bool.
-From SK Require Import lib.Tok lib.LGraph lib.Reach model.C01_Model model.C02_Model.
+From SK Require Import lib.Tok lib.LGraph lib.Reach model.C01_Model model.C02_Model model.C02_Store.
 Import ListNotations.
 Local Open Scope Z_scope.
 
@@ -54,3 +57,22 @@ Definition run_dicts (ds : list dict) (its_key ctx_key : N) (k : Z) : tok := top
 Definition run_fnn (g : its) (seeds : list N) (ks : list Z) : tok :=
   L [tlist (fun k => topt (tset tN) (fnn g seeds k)) ks;
      match ks with k :: _ => topt (fun l => tits (extract_subgraph g l)) (fnn g seeds k) | [] => L [] end].
+
+(** ** get_rc pass by pass: the graph rc after _add_changed_bonds, after _add_hh_bonds, after _add_charge_change_nodes and after
+    _reconnect_rc_edges (the last two only run under disconnected=True).  Atoms in insertion order (= rc.nodes order). *)
+Definition rc_pass1 (K : keysel) (keep : bool) (g : xits) : rcx_state := fold_left (step_changed_x K keep g) (gedges g) ([], []).
+Definition rc_pass2 (K : keysel) (keep : bool) (g : xits) : rcx_state := fold_left (step_hh_x K g) (gedges g) (rc_pass1 K keep g).
+Definition rc_pass3 (K : keysel) (keep : bool) (g : xits) : rcx_state :=
+  (fold_left (step_charge K) (gnodes g) (fst (rc_pass2 K keep g)), snd (rc_pass2 K keep g)).
+Definition rc_pass4 (K : keysel) (keep : bool) (g : xits) : rcx_state :=
+  (fst (rc_pass3 K keep g), fold_left (step_reconnect (fst (rc_pass3 K keep g))) (gedges g) (snd (rc_pass3 K keep g))).
+
+Definition tstate (st : rcx_state) : tok := L [tlist txnode (fst st); tset txedge (snd st)].
+Definition run_steps (K : keysel) (keep : bool) (g : xits) : tok :=
+  L [tstate (rc_pass1 K keep g); tstate (rc_pass2 K keep g); tstate (rc_pass3 K keep g); tstate (rc_pass4 K keep g)].
+
+(** _should_include_edge(std, is_mtg_attr, keep_mtg) for is_mtg_attr, keep_mtg in {False, True}^2, and _is_hydrogen(element) *)
+Definition run_truth (stds : list Z) (els : list (lab N)) : tok :=
+  L [tlist (fun s => L [tbool (include_x false (IE 0 0 s, Some false)); tbool (include_x false (IE 0 0 s, Some true));
+                        tbool (include_x true (IE 0 0 s, Some false)); tbool (include_x true (IE 0 0 s, Some true))]) stds;
+     tlist (fun l => tbool (ish_lab l)) els].
